@@ -34,6 +34,12 @@ pub enum Creator {
   /// a callback running on the operator's worker emits into the hot source that feeds the operator
   HotDebounceFeedback,
   HotObserveOnFeedback,
+  /// the subscription ends (25 ms) before the first period (40 ms) has elapsed
+  TimerNotYetFired,
+  IntervalNotYetFired,
+  /// a source that ends at once, gated by a timer that has not fired yet: the timer's worker must go too
+  JustTakeUntilTimer,
+  JustSampleInterval,
 }
 
 #[derive(Clone, Copy, Debug, PartialEq)]
@@ -59,6 +65,8 @@ fn applicable(c: Creator, e: Ending) -> bool {
     (Interval | IntervalFlatMapObserveOn | IntervalSampleInterval | IntervalPublish | IntervalDelay | IntervalRefCount | IntervalReplay | StartWithIntervalRefCount | StartWithIntervalReplay, SourceComplete) => false,
     (IntervalPublish, Take1 | First | TakeUntilTimer | AmbNever) => false,
     (HotDebounceFeedback | HotObserveOnFeedback, Retry2 | TakeUntilTimer | AmbNever | First) => false,
+    (TimerNotYetFired | IntervalNotYetFired, e) => e == Unsubscribe,
+    (JustTakeUntilTimer | JustSampleInterval, e) => matches!(e, SourceComplete | Unsubscribe),
     _ => true,
   }
 }
@@ -125,6 +133,10 @@ fn create(c: Creator, causes: &Causes) -> Built {
       );
       Built { o, hot: Some(hot), connect: None }
     }
+    Creator::TimerNotYetFired => Built { o: observables::timer(ms(40), nt()).map(|_| 0), hot: None, connect: None },
+    Creator::IntervalNotYetFired => Built { o: observables::interval(ms(40), nt()).map(|x| x as i64), hot: None, connect: None },
+    Creator::JustTakeUntilTimer => Built { o: cold().take_until(observables::timer(ms(40), nt())), hot: None, connect: None },
+    Creator::JustSampleInterval => Built { o: cold().sample(observables::interval(ms(40), nt())), hot: None, connect: None },
     Creator::IntervalRefCount => Built { o: observables::interval(ms(10), nt()).map(|x| x as i64).ref_count().observable(), hot: None, connect: None },
     Creator::IntervalReplay => Built { o: observables::interval(ms(10), nt()).map(|x| x as i64).replay().observable(), hot: None, connect: None },
     Creator::StartWithIntervalRefCount => {
@@ -232,7 +244,7 @@ pub fn exit_scn(c: Creator, e: Ending, twice: bool, q: Option<u32>, t: Option<u3
 pub fn c15_scenarios() -> Vec<Scn> {
   use Creator::*;
   use Ending::*;
-  let creators = [Interval, Timer, HotObserveOn, ColdSubscribeOn, ColdObserveOn, HotDebounce, HotTimeout, IntervalFlatMapObserveOn, ColdObserveOnTwice, IntervalSampleInterval, IntervalPublish, IntervalDelay, IntervalRefCount, IntervalReplay, StartWithIntervalRefCount, StartWithIntervalReplay, HotDebounceFeedback, HotObserveOnFeedback];
+  let creators = [Interval, Timer, HotObserveOn, ColdSubscribeOn, ColdObserveOn, HotDebounce, HotTimeout, IntervalFlatMapObserveOn, ColdObserveOnTwice, IntervalSampleInterval, IntervalPublish, IntervalDelay, IntervalRefCount, IntervalReplay, StartWithIntervalRefCount, StartWithIntervalReplay, HotDebounceFeedback, HotObserveOnFeedback, TimerNotYetFired, IntervalNotYetFired, JustTakeUntilTimer, JustSampleInterval];
   let endings = [SourceComplete, SourceError, Unsubscribe, Take1, First, TakeUntilTimer, AmbNever, Retry2];
   let mut v = vec![];
   for c in creators {
@@ -246,7 +258,7 @@ pub fn c15_scenarios() -> Vec<Scn> {
       } else if matches!((c, e), (HotObserveOn, Retry2) | (HotTimeout, Retry2) | (HotDebounce, Retry2)) {
         // a re-subscription on the worker thread racing the unsubscribe
         Some(2)
-      } else if matches!(e, Unsubscribe | Take1) {
+      } else if matches!(e, Unsubscribe | Take1) || matches!(c, JustTakeUntilTimer | JustSampleInterval) {
         Some(1)
       } else {
         None
@@ -414,6 +426,37 @@ pub fn c16_scenarios() -> Vec<Scn> {
       ));
     }
   }
+  // delay(d) over a subject fed by two threads whose items overlap inside the delay: each item is
+  // handed on d after *it* was received, whatever the other one is doing
+  v.push(time_scn(
+    "c16/delay(10ms) over a subject fed by two threads (items at 3ms and 7ms)",
+    Some(2),
+    Some(3),
+    move |rec, _| {
+      let sbj = subjects::Subject::<i64>::new();
+      let _s = rec.sub_i64(&sbj.observable().delay(ms(10)));
+      let (s1, s2) = (sbj.clone(), sbj.clone());
+      let h1 = thread::spawn(move || {
+        thread::sleep(ms(3));
+        s1.next(1);
+      });
+      let h2 = thread::spawn(move || {
+        thread::sleep(ms(7));
+        s2.next(2);
+      });
+      let _ = h1.join();
+      let _ = h2.join();
+    },
+    move |tm, _, _| {
+      let got: Vec<(EvK, u64)> = tm.iter().map(|x| (x.k.clone(), x.at_ms)).collect();
+      let want = vec![(EvK::Next(1), 13), (EvK::Next(2), 17)];
+      if got == want {
+        vec![]
+      } else {
+        vec![viol("delay-off-the-clock", format!("got {}, want {:?}", show_timed(tm), want))]
+      }
+    },
+  ));
   // timeout(d): gaps just below / above d; completion inside / outside d; error
   for (name, gaps, script, want) in [
     ("gap below d, completes in time", vec![0u64, 7, 7], vec![Emit::N(1), Emit::N(2), Emit::C], vec![(EvK::Next(1), 0u64), (EvK::Next(2), 7), (EvK::Complete, 14)]),
